@@ -436,6 +436,18 @@ class Gen:
                    ["prepend"] * 4 + ["poke"] * 3 + ["wmap"] * 1 + ["free"] * 3 +
                    ["size"] * 2 + ["read"] * 3 + ["rd1"] * 8 + ["peek"] * 4 + ["extract"] * 4 + ["iovec"] * 3 +
                    ["slin"] * 3 + ["scan"] * 3 + ["find"] * 3 + ["compare"] * 3 + ["equal"] * 2 + ["match"] * 2)
+        # half of the scripts concentrate on ONE handle and on the calls that rebuild its segment chain
+        # (grow - cut - grow again - read): defects of the cached head / tail pointers need such a sequence
+        focus = r.chance(1, 2)
+        hfocus = None
+        if focus and not c02:
+            ops = (["alloc"] * 7 + ["append"] * 7 + ["insert"] * 6 + ["truncate"] * 5 + ["delete"] * 5 + ["split"] * 4 +
+                   ["resize"] * 4 + ["prepend"] * 2 + ["splice"] * 2 + ["dup"] * 1 + ["free"] * 1 + ["merge"] * 1 +
+                   ["rd1"] * 7 + ["extract"] * 4 + ["size"] * 1 + ["iovec"] * 1 + ["slin"] * 1 + ["scan"] * 1)
+        elif focus:
+            ops = (["alloc"] * 6 + ["append"] * 6 + ["insert"] * 6 + ["truncate"] * 4 + ["delete"] * 5 + ["split"] * 4 +
+                   ["resize"] * 4 + ["dup"] * 4 + ["splice"] * 4 + ["poke"] * 10 + ["free"] * 2 + ["auditall"] * 6 +
+                   ["extract"] * 3)
         while len(out) < length:
             lv = live()
             fr = free()
@@ -445,6 +457,13 @@ class Gen:
             if op in ("alloc", "dup", "splice", "split", "copy") and not fr:
                 op = "free"
             h = r.choice(lv) if lv else 0
+            if focus and lv:
+                if hfocus not in sz:
+                    hfocus = r.choice(lv)
+                if r.chance(3, 4):
+                    h = hfocus
+                if op == "free" and h == hfocus and r.chance(3, 4):
+                    continue
             n = sz.get(h, 0)
             ins = c02
             if op == "alloc":
